@@ -26,7 +26,7 @@ import mixgen
 
 META = {
     'text': 'Theorems (Lean 4, over the reals, any number of compounds and size bins): for the mass-flux and the standard-volume-flux convention number flux x per-particle component masses = prescribed mass flux x mass fractions (vector and total; also for a zero flux), resp. = volume flux x density at 273.15 K/1e5 Pa x mass fractions; the particle built has the prescribed diameter (given scale invariance of density - a HYPOTHESIS for an arbitrary oracle, a THEOREM (eos_density_scaleInvariant, chained with Props.C10.gen_density_smul) for the density regenerated from dbm_p.py on every run; insoluble: unconditional) and mole fractions; per-particle convention: the guarded round-trip hypotheses are proved for the transcribed masses_by_diameter (roundTrips_hold); with sum(vf)=1 the bins of blowout.particles carry exactly the phase total of every compound (empty bins allowed); blowout: fluxes over all gas and liquid bins = released mass flux of every compound GIVEN (hypotheses) flash conservation and the flash\'s phase hand-off, also with an absent phase without bins; first plume element: packed row = m x nb0 x fill time per compound, heat, zeros, fill time = element volume / discharge, and a class set up with mass flux q contributes q x mf_j x dt. The model is tied to the real code by oracle-table correspondence (recorded density / masses_by_diameter / ambient answers of the real objects replayed through the model, questions and outputs compared); every predicate is also evaluated on the real outputs of initial_conditions, blowout.particles, Blowout(...).disp_phases, particle_from_Q/mb0 and the first row of bent_plume_model.Model.q, the latter against the release set-up\'s OWN nb0/m0 and an independent fill-time slot.',
-    'note': 'Trusted: Lean kernel + 3 standard axioms; the hand transcription Model/Release.lean (validated each run by the oracle-table correspondence); real arithmetic for IEEE doubles. HYPOTHESES of the theorems, NOT proved here and only sampled on the real library on every generated case: conservation of the flash (that is property C02; not imported as a lemma), the flash hand-off m = n*xi*M, positivity of the densities, scale invariance of density for an arbitrary oracle (proved only for the regenerated Python EOS density, Props.C10.gen_density_smul; the Fortran backend is tied to it by C08). Not modelled: profile interpolation (C07), the size-distribution model psm (only its output arrays are used). Coverage floors per clause are obligations. Known finding: user-supplied bins for a phase that is absent at the release give NaN particles.',
+    'note': 'Trusted: Lean kernel + 3 standard axioms; the hand transcription Model/Release.lean (validated each run by the oracle-table correspondence); real arithmetic for IEEE doubles. HYPOTHESES of the theorems, NOT proved here and only sampled on the real library on every generated case: conservation of the flash (that is property C02; not imported as a lemma), the flash hand-off m = n*xi*M, positivity of the densities, scale invariance of density for an arbitrary oracle (proved only for the regenerated Python EOS density, Props.C10.gen_density_smul; the Fortran backend is tied to it by C08). Not modelled: profile interpolation (C07), the size-distribution model psm (only its output arrays are used). Blowout references are the harness\'s own (released flux and mixture from its own get_oil call, release state from its own z0 and profile node table, flash and FluidParticles built from its own mixture, prescribed bins, requested bin counts); what the Blowout object holds is compared with them. The blowout correspondence runs at 1e-9 (phase totals near a phase boundary are conditioned like 1/phase fraction), all predicates at 1e-10. Coverage floors per clause are obligations. Known finding: user-supplied bins for a phase that is absent at the release give NaN particles.',
     'technique': 'Lean 4 proof over a hand-written model (one hypothesis discharged by a theorem about regenerated code) + oracle-table correspondence + direct predicates on real outputs with independent oracles',
 }
 GEN = ['eosfull']       # Props/C11 chains with Props.C10.gen_density_smul about the density regenerated from dbm_p.py
@@ -48,6 +48,11 @@ LEVEL_NOTE = ('theorems over the reals about the hand-written model of the relea
 
 TOL_DIAM = 1e-9     # diameter of the particle built vs prescribed: density(c*m) vs density(m) agree to rounding (cubic
 #                     root finding amplifies 1e-16 to <= 1e-12 observed), cube root divides the error by 3
+TOL_BLOWOUT_CORR = 1e-9   # Release.blowoutPhases vs Blowout.disp_phases: the number flux of a bin is proportional to the phase
+#                           total of the release flash; for a phase close to appearing (the placed cases hold free gas at a
+#                           void fraction of 1e-4) that total is conditioned like 1 / (phase fraction): last-bit differences
+#                           between the Float model's and NumPy's evaluation (mass fractions, cubic root behind the density)
+#                           show up at 1e-11..1e-10 (observed 4.3e-11).  The flux-closure PREDICATES stay at 1e-10 of the total.
 TOL_FLASH = TOL['conservation_drift']   # blowout total vs mass_flux: chained with the flash's mass balance (C02)
 
 
@@ -589,17 +594,45 @@ def blowout_case(ctx, r, profiles, i, force=None, stratum=None, preset=None):
     with silence(), np.errstate(all='ignore'):
         b = blowout.Blowout(z0=z0, d0=d0, substance=sub, q_oil=q_oil, gor=gor, num_gas_elements=ng, num_oil_elements=no,
                             water=prf, current=np.array([0.05, 0., 0.]), ca=ca, size_distribution=sd)
-        m, xi, K = b.oil.equilibrium(b.mass_flux, b.Tj, b.P0)
-    blowout_snapshot(case, b, m, xi)
+    blowout_snapshot(case, b, oil, mflux, prf, sd)
     return case
 
 
-def blowout_snapshot(case, b, m, xi):
-    """what the predicates read of a Blowout object in its present state (m, xi: an independent re-flash of b.mass_flux)"""
-    case.update({'b': b, 'm': m, 'xi': xi, 'mass_flux': fl(b.mass_flux),
-                 'amb': [float(b.T0), float(b.S0), float(b.P0)], 'Tj': float(b.Tj), 'M': fl(b.oil.M),
-                 'd_gas': fl(b.d_gas), 'vf_gas': fl(b.vf_gas), 'd_liq': fl(b.d_liq), 'vf_liq': fl(b.vf_liq),
-                 'm0': [fl(p.m0) for p in b.disp_phases], 'nb0': [float(p.nb0) for p in b.disp_phases]})
+def profile_nodes(spec):
+    """the node table the harness itself wrote into the Profile (closed form of make_profiles)"""
+    z = np.linspace(0., spec['H'], spec['nz'])
+    T = spec['Tb'] + (spec['Ts'] - spec['Tb']) * np.exp(-z / spec['zT'])
+    S = spec['S0'] + spec['dS'] * (1. - np.exp(-z / spec['zS']))
+    return z, T, S
+
+
+def blowout_snapshot(case, b, ref_oil, ref_mflux, prf, sd=None):
+    """what the predicates use.  Everything that serves as a REFERENCE is the harness's own: the released mass flux and
+    the mixture of its own get_oil call, the release state from its own z0 and profile table (T, S by linear interpolation
+    of the node table it generated, P by its own look-up), the release flash on its own mixture, FluidParticle objects built
+    from its own mixture, the bins it prescribed (user mode).  What the Blowout object holds is kept under 'obj_*' and
+    compared with these references by blowout_predicates."""
+    from tamoc import dbm
+    z0 = case['z0']
+    zn, Tn, Sn = profile_nodes(case['profile'])
+    Ta_r, Sa_r = float(np.interp(z0, zn, Tn)), float(np.interp(z0, zn, Sn))
+    P_r = float(prf.get_values(z0, ['pressure'])[0])
+    ref_mflux = np.asarray(ref_mflux, dtype=float)
+    with np.errstate(all='ignore'):
+        m, xi, K = ref_oil.equilibrium(ref_mflux, Ta_r, P_r)
+    refp = [dbm.FluidParticle(list(ref_oil.composition), fp_type=k, delta=ref_oil.delta, user_data=ref_oil.user_data) for k in (0, 1)]
+    case.update({'b': b, 'm': m, 'xi': xi, 'mass_flux': fl(ref_mflux), 'amb': [Ta_r, Sa_r, P_r], 'Tj': Ta_r, 'M': fl(ref_oil.M),
+                 'ref_particles': refp, 'ref_composition': list(ref_oil.composition),
+                 'obj_mass_flux': fl(b.mass_flux), 'obj_composition': list(b.oil.composition),
+                 'obj_state': [float(b.T0), float(b.S0), float(b.P0), float(b.Tj)],
+                 'obj_bins': {'d_gas': fl(b.d_gas), 'vf_gas': fl(b.vf_gas), 'd_liq': fl(b.d_liq), 'vf_liq': fl(b.vf_liq)},
+                 'm0': [fl(p.m0) for p in b.disp_phases], 'nb0': [float(p.nb0) for p in b.disp_phases],
+                 'obj_fp_types': [int(p.particle.fp_type) for p in b.disp_phases]})
+    if sd is not None:
+        # user mode: the PRESCRIBED bins are the reference
+        case.update({k: fl(sd[k]) for k in ('d_gas', 'vf_gas', 'd_liq', 'vf_liq')})
+    else:
+        case.update(case['obj_bins'])
     return case
 
 
@@ -667,9 +700,7 @@ def blowout_history(ctx, r, profiles, worst):
             ctx.violation('blowout-history-mass-flux', 'after %s the Blowout carries a mass_flux that is not the one of its present parameters'
                           % '+'.join(hist), dict(case, mass_flux_object=fl(b.mass_flux), mass_flux_fresh_get_oil=fl(mflux_i)))
             break
-        with np.errstate(all='ignore'):
-            m, xi, K = b.oil.equilibrium(np.asarray(mflux_i), b.Tj, b.P0)
-        blowout_snapshot(case, b, m, xi)
+        blowout_snapshot(case, b, oil_i, mflux_i, prf)
         nv = len(ctx.violations)
         blowout_predicates(ctx, case, worst)
         if len(ctx.violations) > nv:
@@ -754,6 +785,40 @@ def blowout_predicates(ctx, c, worst):
     mflux = np.array(c['mass_flux'])
     m, xi = c['m'], c['xi']
     nG, nL = len(c['d_gas']), len(c['d_liq'])
+    # ---- what the object holds vs the harness's own references (requested inputs, own get_oil, own profile table) ----
+    if c['obj_composition'] != c['ref_composition'] or not close(c['obj_mass_flux'], c['mass_flux'], TOL['identity']):
+        ctx.violation('blowout-mass-flux-not-requested', 'Blowout.mass_flux / Blowout.oil are not those of get_oil(substance, q_oil, gor, ca, 1) '
+                      'for the requested parameters', dict(rep, object_mass_flux=c['obj_mass_flux'], object_composition=c['obj_composition'],
+                                                           expected_composition=c['ref_composition']))
+        return
+    Ta_r, Sa_r, P_r = c['amb']
+    T0o, S0o, P0o, Tjo = c['obj_state']
+    if not (close(T0o, Ta_r, 1e-10) and close(S0o, Sa_r, 1e-10) and close(P0o, P_r, 1e-10) and Tjo == T0o):
+        ctx.violation('blowout-release-state', 'Blowout.T0/S0/P0/Tj are not the ambient state of the profile at the requested release depth '
+                      '(jet temperature = ambient)', dict(rep, object_T0_S0_P0_Tj=c['obj_state'], expected_T_S_P=c['amb']))
+        return
+    ob = c['obj_bins']
+    if c['mode'] == 'user':
+        if any(ob[k] != c[k] for k in ('d_gas', 'vf_gas', 'd_liq', 'vf_liq')):
+            ctx.violation('blowout-bins-not-as-prescribed', 'the Blowout does not use the user-supplied size distribution as given '
+                          '(d_gas, vf_gas, d_liq, vf_liq)', dict(rep, object_bins=ob))
+            return
+    else:
+        # built-in size model: the requested number of bins for a phase the release flash holds, none otherwise
+        for ph, k, key, nreq in (('gas', 0, 'd_gas', c['num_gas_elements']), ('liquid', 1, 'd_liq', c['num_oil_elements'])):
+            present = float(np.sum(m[k, :])) > 0.
+            if present and len(ob[key]) != nreq and len(ob[key]) != 0:
+                ctx.violation('blowout-bin-count-not-requested', 'the built-in size model returned %d %s bins, %d were requested'
+                              % (len(ob[key]), ph, nreq), dict(rep, phase=ph, object_bins=ob))
+                return
+            if not present and len(ob[key]) != 0:
+                ctx.violation('blowout-bins-for-absent-phase', 'the built-in size model returned %s bins although the release flash holds no %s'
+                              % (ph, ph), dict(rep, phase=ph, object_bins=ob))
+                return
+    if len(c['obj_fp_types']) == nG + nL and c['obj_fp_types'] != [0] * nG + [1] * nL:
+        ctx.violation('blowout-particle-phase', 'a gas bin is not a gas FluidParticle (fp_type 0) or a liquid bin not a liquid one (fp_type 1)',
+                      dict(rep, fp_types=c['obj_fp_types']))
+        return
     if len(c['m0']) != nG + nL:
         ctx.violation('blowout-bin-count', 'Blowout.disp_phases does not hold one particle class per gas and liquid bin', rep)
         return
@@ -822,13 +887,13 @@ def blowout_predicates(ctx, c, worst):
             w = xi[k, :] * M
             worst['handoff'] = max(worst['handoff'], float(np.max(np.abs(m[k, :] / s - w / np.sum(w)))))
     # diameters / mole fractions of the first and last particle class
-    for idx in sorted(set([0, nG + nL - 1]) if nG + nL else []):
-        pp = b.disp_phases[idx]
+    for idx in sorted(set([0, max(nG - 1, 0), min(nG, nG + nL - 1), nG + nL - 1]) if nG + nL else []):
         ph = 0 if idx < nG else 1
         dd = (c['d_gas'] + c['d_liq'])[idx]
+        refp = c['ref_particles'][ph]        # FluidParticle of this phase built from the harness's own mixture
         with np.errstate(all='ignore'):
-            dk = float(pp.particle.diameter(np.array(c['m0'][idx]), c['Tj'], c['amb'][2]))
-            yg = np.asarray(pp.particle.mol_frac(np.array(c['m0'][idx])), dtype=float)
+            dk = float(refp.diameter(np.array(c['m0'][idx]), c['Tj'], c['amb'][2]))
+            yg = np.asarray(refp.mol_frac(np.array(c['m0'][idx])), dtype=float)
         if not close(dk, dd, TOL_DIAM):
             ctx.violation('blowout-diameter', 'a blowout particle class does not have its bin diameter at release conditions',
                           dict(rep, index=idx, diameter=dk, prescribed=dd))
@@ -838,19 +903,25 @@ def blowout_predicates(ctx, c, worst):
 
 
 def blowout_line(c):
-    """oracle: the real FluidParticle densities for the questions of the model (mass fractions of xi at standard and release state)"""
-    b = c['b']
-    Ta, Sa, P = c['amb']
+    """model replay with the SAME inputs as the code: the object's release state (verified by the predicates to be the
+    harness's own within 1e-10), the flash of the harness's own mixture at that state, densities from the harness-built
+    FluidParticles (mass fractions of xi at standard and release state)"""
+    T0o, S0o, P0o, Tjo = c['obj_state']
+    refp = c['ref_particles']
+    with np.errstate(all='ignore'):
+        # the object's own mass_flux (verified equal to the harness's within 1e-10): near a phase boundary the phase totals
+        # amplify a last-bit difference of the input by 1 / (phase fraction)
+        m, xi, K = refp[0].equilibrium(np.array(c['obj_mass_flux']), Tjo, P0o)
     tbl = []
     ntab = [0, 0]
-    for k, part in ((0, b.gas), (1, b.liq)):
+    for k, part in ((0, refp[0]), (1, refp[1])):
         with np.errstate(all='ignore'):
-            mf = np.asarray(part.mass_frac(c['xi'][k, :]), dtype=float)
-            for (T, PP) in ((273.15, 1.e5), (c['Tj'], P)):
+            mf = np.asarray(part.mass_frac(xi[k, :]), dtype=float)
+            for (T, PP) in ((273.15, 1.e5), (Tjo, P0o)):
                 tbl += ['density', fl(mf) + [T, PP], [float(part.density(mf, T, PP))]]
                 ntab[k] += 1
-    return req('Release.blowout', c['M'], Ta, Sa, P, fl(c['m'][0, :]), fl(c['m'][1, :]), fl(c['xi'][0, :]), fl(c['xi'][1, :]),
-               c['d_gas'], c['vf_gas'], c['d_liq'], c['vf_liq'], c['Tj'], ntab[0], *tbl)
+    return req('Release.blowout', c['M'], T0o, S0o, P0o, fl(m[0, :]), fl(m[1, :]), fl(xi[0, :]), fl(xi[1, :]),
+               c['d_gas'], c['vf_gas'], c['d_liq'], c['vf_liq'], Tjo, ntab[0], *tbl)
 
 
 def blowout_compare(c, res, worst):
@@ -862,7 +933,7 @@ def blowout_compare(c, res, worst):
         return ['blowout: model has %d particle classes, code %d' % (len(nb0), len(c['nb0']))]
     for k in range(len(nb0)):
         worst['corr'] = max(worst['corr'], relerr(nb0[k], c['nb0'][k]))
-        if not close(nb0[k], c['nb0'][k], TOL['gen_vs_source']) or not close(res[2 + k], c['m0'][k], TOL['gen_vs_source']):
+        if not close(nb0[k], c['nb0'][k], TOL_BLOWOUT_CORR) or not close(res[2 + k], c['m0'][k], TOL_BLOWOUT_CORR):
             bad.append('class %d model=(%r,%r) code=(%r,%r)' % (k, res[2 + k], nb0[k], c['m0'][k], c['nb0'][k]))
             break
     return bad
@@ -1201,7 +1272,7 @@ def _run(ctx, lean_ok):
                      'particle_from_Q': 'Release.particleFromQ == stratified_plume_model.particle_from_Q (.m0, .nb0)',
                      'particle_from_mb0': 'Release.particleFromMb0 == stratified_plume_model.particle_from_mb0 (.m0, .nb0)',
                      'bins': 'Release.particles == blowout.particles (per-bin m0, nb0, component totals)',
-                     'blowout': 'Release.blowoutPhases == Blowout.disp_phases (m0, nb0 of every gas and liquid bin)',
+                     'blowout': 'Release.blowoutPhases == Blowout.disp_phases (m0, nb0 of every gas and liquid bin; rel %g: phase totals near a phase boundary are ill-conditioned)' % TOL_BLOWOUT_CORR,
                      'first-row': 'Release.firstRow == dispersed-phase section of bent_plume_model.Model.q[0]'}
             for kind in ncase:
                 ctx.oblige('correspondence %s on %d cases (rel %g)' % (names.get(kind, kind), ncase[kind], TOL['gen_vs_source']),
